@@ -69,7 +69,8 @@ CLAIMED = {
          'dispatches every grammar-valid text to the right decoder, the classes being pairwise disjoint. The TIME UTC '
          'flag loss is proved as a witness (full statements refuted). FLOAT, GEO, BINARY, URI, CAL-ADDRESS wrap '
          'float()/repr, base64 and str: outside the proof (assumed library laws), decided by correspondence/oracle.',
-         'Trusted: Lean kernel; tools/extract.py (weekday/frequency tables, regex shapes); hand models of every '
+         'Function bodies of the encoders/decoders (vDuration, vUTCOffset, vDate, vDatetime, vTime.from_ical, vMonth, vBoolean, vInt) are regenerated from the source by tools/py2lean.py on every run and proved equal to the hand models (body_* theorems). '
+         'Trusted: Lean kernel; tools/extract.py + tools/py2lean.py with Model/PyRT*.lean (run against CPython every check) (weekday/frequency tables, regex shapes); hand models of every '
          'to_ical/from_ical tied by correspondence (all 86 400 times, all offsets, year boundaries / all 3.65 M dates in '
          'thorough, durations, ints to 2^70, grammar-generated and malformed texts); CPython int() modelled for ASCII; '
          'datetime domain years 0001-9999, seconds 00-59.',
@@ -126,7 +127,8 @@ CLAIMED = {
          'no unescaped ; or ,); CATEGORIES join/split is item-wise lossless. The replace chain and the decoder class are '
          'regenerated from parser.py on every run, so the proofs are re-checked against the current source; vText/vCategory '
          'glue and the property route are tied by exhaustive short-string and random correspondence.',
-         'Trusted: Lean kernel; tools/extract.py; the hand-written single-pass scanner and split_on_unescaped_comma models '
+         'split_on_unescaped_comma is regenerated from the source by tools/py2lean.py and proved equal to the hand model (body_split_on_unescaped_comma). '
+         'Trusted: Lean kernel; tools/extract.py + tools/py2lean.py with Model/PyRT*.lean (run against CPython every check); the hand-written single-pass scanner and split_on_unescaped_comma models '
          '(tied by correspondence on all strings <= 4 over the 14-character critical alphabet); UTF-8 only.',
          'DESIGN.md 6/C07'),
  'C06': ('Lean 4 proof (induction on the line; generic in the limit) + translated constants + differential correspondence',
@@ -137,7 +139,8 @@ CLAIMED = {
          'run; the theorem is generic in any limit >= 5, so benign retuning keeps the proof. Both foldline paths, the '
          'unfold scanner and the newline splitter are tied to the code by correspondence (every length 0..240/400 x '
          'widths 1..4, every boundary alignment, all strings <= 6 over {CR LF SP HT a} against Python re).',
-         'Trusted: Lean kernel; tools/extract.py; hand models of foldline (both paths), uFOLD.sub and NEWLINE.split tied '
+         'foldline (both paths) is regenerated from the source by tools/py2lean.py and proved equal to the hand model for every limit >= 2 (body_foldline_with, body_foldline). '
+         'Trusted: Lean kernel; tools/extract.py + tools/py2lean.py with Model/PyRT*.lean (run against CPython every check); hand models of foldline (both paths), uFOLD.sub and NEWLINE.split tied '
          'by correspondence; Char.utf8Size as the octet count; python -O (assert stripped) not modelled; '
          'lines_roundtrip covers Contentlines.to_ical/from_ical for lines that start with a name character.',
          'DESIGN.md 6/C06'),
@@ -151,7 +154,8 @@ CLAIMED = {
          'recorded findings D02/D03 are precisely "viaPlaceholders is not the identity" (decide witnesses; the '
          'unrestricted inverse statement is refuted). Chains and character classes are regenerated from parser.py '
          'every run. Tree-level no-injection (components/properties) is decided by the oracle on the implementation.',
-         'Trusted: Lean kernel; tools/extract.py; hand models of Contentline.parts / from_parts / raw_value tied by '
+         'Contentline.parts (whole function), raw_value, escape_string, unescape_string are regenerated from the source by tools/py2lean.py and proved equal to the hand models (body_parts, body_raw_value, ...). '
+         'Trusted: Lean kernel; tools/extract.py + tools/py2lean.py with Model/PyRT*.lean (run against CPython every check); hand models of Contentline.parts / from_parts / raw_value tied by '
          'correspondence (all lines <= 5 over {A ; : = " \\ , %}, hostile pieces in every position); ASCII names; '
          'python -O (assert stripped) not modelled; parameter values within the domain (no double quote, no control '
          'characters).',
@@ -164,7 +168,8 @@ CLAIMED = {
          'regenerated from parser.py every run. The in-line and on-a-component routes are tied by correspondence and '
          'decided by the oracle; there the recorded finding param-escape-hazard (backslash before , : ; \\ and literal '
          '%2C-style codes in parameter values) applies.',
-         'Trusted: Lean kernel; tools/extract.py; hand models of q_split, dquote, Parameters.from_ical/to_ical tied by '
+         'dquote, q_join, q_split are regenerated from the source by tools/py2lean.py and proved equal to the hand models (body_dquote, body_q_join, body_q_split). '
+         'Trusted: Lean kernel; tools/extract.py + tools/py2lean.py with Model/PyRT*.lean (run against CPython every check); hand models of q_split, dquote, Parameters.from_ical/to_ical tied by '
          'correspondence (all strings <= 5 over {" , ; = a}, all values <= 3 over a 14-character alphabet); ASCII names '
          '(Python \\w and str.upper are Unicode-aware: non-ASCII names / strict-mode values are skipped as unmodelled).',
          'DESIGN.md 6/C08'),
